@@ -25,7 +25,20 @@ def main():
     files = re.findall(r"^\+\+\+ b/(\S+)", open(patch).read(), flags=re.M)
     pkgs = sorted({f.split("/")[0] for f in files})
     rel = json.load(open(os.path.join(ROOT, "srcrelevant.json")))
-    pids = sorted(p for p, ps in rel.items() if set(ps) & set(pkgs))
+    # the properties whose functions live in the changed files (a whole package only where no finer table exists);
+    # HARMLESS_ALL=1 runs every check of the touched packages instead
+    by_file = {"bitmap/rank.go": "C01", "bitmap/select.go": "C02", "bitmap/of.go": "C12", "bitmap/ofmany.go": "C12",
+               "bitmap/get.go": "C12 C14", "bitmap/toarray.go": "C12", "bitmap/builder.go": "C12", "bitmap/next.go": "C13",
+               "bitmap/join.go": "C14", "bitmap/slice.go": "C14", "bitmap/tailbitmap.go": "C15", "bitmap/fromstr32.go": "C11",
+               "bmtree/index.go": "C03 C04 C05", "bmtree/partial_tree.go": "C03", "bmtree/allpaths.go": "C04", "bmtree/decode.go": "C04",
+               "bmtree/newpath.go": "C10 C11", "bmtree/pathstr.go": "C10", "bmtree/pathbits.go": "C10", "bmtree/pathlen.go": "C03 C10",
+               "bmtree/pathheight.go": "C03 C10", "bmtree/height.go": "C03 C04", "sigbits/firstdiff.go": "C16 C17",
+               "sigbits/countprefixes.go": "C16", "sigbits/sigbits_countprefixes.go": "C16", "sigbits/sigbits.go": "C16",
+               "sigbits/sharding.go": "C17"}
+    if os.environ.get("HARMLESS_ALL") != "1" and all(f in by_file for f in files):
+        pids = sorted({p for f in files for p in by_file[f].split()} | ({"C19"} if set(pkgs) & set(rel["C19"]) else set()))
+    else:
+        pids = sorted(p for p, ps in rel.items() if set(ps) & set(pkgs))
     dst = os.path.join(ROOT, "harmless", name)
     os.makedirs(dst, exist_ok=True)
     shutil.copy(patch, dst)
